@@ -12,7 +12,9 @@ impl AppCounters {
     pub(crate) fn from_update_interval(update: i64) -> Self {
         AppCounters {
             df_count: BTreeMap::new(),
-            timestamp: chrono::Utc::now() + chrono::Duration::seconds(update),
+            timestamp: chrono::Duration::try_seconds(update)
+                .and_then(|interval| chrono::Utc::now().checked_add_signed(interval))
+                .unwrap_or_else(chrono::Utc::now),
             cleanup_count: 0u32,
         }
     }
